@@ -1,7 +1,7 @@
 (* C04 — committed data reads back identically; ids are content-derived and stable. Property theorems only. *)
 From Coq Require Import List NArith Bool.
 Import ListNotations.
-From GB Require Import Decimal Tree.
+From GB Require Import Decimal Tree Reach Sort Read World Append.
 Local Open Scope N_scope.
 
 (* clocks and format version survive the decimal text form, for every 64-bit value *)
@@ -23,3 +23,11 @@ Print Assumptions C04_tree_sorted.
 
 Example C04_wf_example : wf_pinfo 4 {| t_version := 4; t_edit := 18446744073709551615; t_create := 1; t_extra := true |}.
 Proof. unfold wf_pinfo; cbn. repeat split; try reflexivity; try discriminate. Qed.
+
+(* in every reachable state, an edit committed on a local head reads back as the operations that were there,
+   in their order, followed by the committed ones (ids and payloads are the values themselves in the model) *)
+Theorem C04_commit_read w r h id au ops w' old : inv w -> (budget w + 2 <= jump_limit)%N ->
+  step w (AEdit r h id au ops) = Some w' -> read (st w) h = Some old ->
+  read (st w') (length (st w)) = Some (old ++ ops).
+Proof. exact (edit_reads_back w r h id au ops w' old). Qed.
+Print Assumptions C04_commit_read.
